@@ -179,14 +179,15 @@ CLAIMED = {
              "on every run: (a) machine-checked round trip dec(enc v ++ r) = (v, r) for all in-range values of every wire type "
              "used (also up to dict order for tagged fields); (b) layout equal to a hand-written Kafka (api key, version) table, "
              "proved to imply byte equality for all values, with two recorded deviations in structs no builder can produce (known "
-             "finding); (c) Request.prepare proved to pick the highest supported version inside the advertised range or raise, "
+             "finding); (c) Request.prepare - translated from aiokafka/protocol/api.py on every run (translator/units_c11.py -> gen/PrepareGen.v) "
+             "and proved equal to the model function for every input - proved to pick the highest supported version inside the advertised range or raise, "
              "every _CLASSES list sorted, header version equal to the class's declared version; (d) replies parsed with the request "
              "version's response schema and header form; (e) listed parameters inexpressible in the negotiated version are "
              "rejected. Each run ties the models to the code by byte-exact evaluation of the Gallina codec against the real "
              "classes, exhaustive negotiation over all builders x all (min,max) <= 13 x all parameter subsets, and request bytes "
              "of every builder and version against the Kafka-table encoding of the expected content.",
         note="Trusted: Coq kernel and vm_compute; translator/schema2gallina.py (object introspection, cross-checked each run by an "
-             "independent walk); model/Wire.v and C11Negotiate.v are hand models tied by correspondence; model/KafkaSpec.v written "
+             "independent walk); model/Wire.v and the builder guards of C11Negotiate.v are hand models tied by correspondence (prepare itself is translated); model/KafkaSpec.v written "
              "from memory of the Kafka message definitions (no network); Python's UTF-8 / IEEE-754 conversions; nullability is not "
              "part of the layout universe; VarInt32/VarInt64 (unused by any struct - a theorem) are outside the quantifier. No axioms.",
         technique="Coq proof (generic induction on the wire-type universe; finite table checks by vm_compute over regenerated data) + schema translation + differential correspondence + exhaustive negotiation enumeration",
